@@ -539,6 +539,10 @@ class World:
 
     def op_net_rst(self, step) -> None:
         link = self.net.current_link()
+        if link is None:
+            # a connection the client is still closing (unflushed bytes under flow control) can be reset by the peer too
+            closing = [l for l in self.net.live_links() if l.transport is not None and not l.transport._conn_lost]
+            link = closing[-1] if closing else None
         if link is not None:
             self.trace.add("fault.fired", k="tcp.peer_rst", link=link.id)
             self.net.fired("tcp.peer_rst")
